@@ -209,6 +209,9 @@ def run(ctx):
     failures = []
     kinds_count = {}
     for flavour, n in plan:
+        if len(failures) >= 3:
+            ctx.log("enough failing inputs: the remaining sweeps are skipped")      # (hangs cost the per-case time limit each)
+            break
         if flavour != "ndebug":
             stages.cxx_stage(ctx, flavour)
         ins = robustness_inputs(ctx, n)
@@ -227,7 +230,7 @@ def run(ctx):
                 failures.append((flavour, kind, cat, opt, data, why))
         ctx.log("sweep %s: %d inputs, %d failures so far" % (flavour, len(lines), len(failures)))
     # ---- 3. every token-boundary prefix, with the optional look-ahead scans enabled
-    pf = prefix_family(ctx)
+    pf = prefix_family(ctx) if len(failures) < 3 else []
     for opt in ("2,1,0,2," + "1" + "d" * 30, "3,1,0,2," + "1" * 31):
         lines = ["%s a %s" % (opt, (d or b" ").hex()) for d in pf]
         answers = stages.run_harness(ctx, "tree", lines, flavour="asan", per_case_s=30, max_failures=10)
